@@ -2,7 +2,7 @@
    HwMonFan.SetPwmEnabled over the hooked file layer (hwmon, file) or a verdict-
    driven set script (cmd), against Model.Restore with all defect flags clear. *)
 From F2G Require Export Model.Restore.
-From F2G Require Import Drv.Common gen.Consts Proofs.Restore.
+From F2G Require Import Drv.Common gen.Consts.
 From Coq Require Import Lia.
 
 Inductive case :=
